@@ -313,6 +313,10 @@ func c16Run(s *sim.Sim, p *sim.Params) {
 		s.Probe("sparse-room-run")
 	}
 	nclients := 2 + s.Choose(sim.SWork, 5)
+	if p.Tier == "thorough" && s.Choose(sim.SWork, 3) == 0 {
+		nclients = 5 + s.Choose(sim.SWork, 6) // the thorough tier also explores more crowded hubs
+		s.SetLimits(2_500_000, 0)
+	}
 	if sparse {
 		nclients = 2
 	}
